@@ -1,7 +1,7 @@
 (* C08 -- map applies its sub-pipeline to each item independently, in order.
    GENERATED from Properties/src/C08.props by tools/mkprops.py; property theorems only. *)
 From SP Require Import Model.Impl Model.Spec.
-From SP Require Import Proofs.ImplSpec Proofs.MapSepP Proofs.Toy.
+From SP Require Import Proofs.ImplSpec Proofs.MapSepP Proofs.MapLawsP Proofs.Toy.
 
 (* the i-th output is exactly what the sub-pipeline, run as a standalone pipeline
    (fresh " " separator, a list result rendered with its own separator), yields
@@ -45,6 +45,63 @@ Check C08_first_error_fails_the_call :
   forall (A B : Type) (f : A -> outcome B) (l1 : list A) (x : A) (l2 : list A),
   (forall y, In y l1 -> exists b, f y = Ok b) -> f x = Err -> mapM f (l1 ++ x :: l2) = Err.
 Print Assumptions C08_first_error_fails_the_call.
+
+(* map succeeds with l' exactly when l' is, item by item, what the sub-pipeline yields *)
+Theorem C08_success_characterised :
+  forall (A B : Type) (f : A -> outcome B) (l : list A) (l' : list B),
+  mapM f l = Ok l' <-> Forall2 (fun x y => f x = Ok y) l l'.
+Proof. exact @mapM_ok_iff. Qed.
+Check C08_success_characterised :
+  forall (A B : Type) (f : A -> outcome B) (l : list A) (l' : list B),
+  mapM f l = Ok l' <-> Forall2 (fun x y => f x = Ok y) l l'.
+Print Assumptions C08_success_characterised.
+
+(* the result depends on the sub-pipeline's behaviour on the items alone *)
+Theorem C08_item_alone_decides :
+  forall (A B : Type) (f g : A -> outcome B) (l : list A),
+  (forall x, In x l -> f x = g x) -> mapM f l = mapM g l.
+Proof. exact @mapM_ext_in. Qed.
+Check C08_item_alone_decides :
+  forall (A B : Type) (f g : A -> outcome B) (l : list A),
+  (forall x, In x l -> f x = g x) -> mapM f l = mapM g l.
+Print Assumptions C08_item_alone_decides.
+
+Theorem C08_neighbours_do_not_matter :
+  forall (A B : Type) (f : A -> outcome B) (l1 l2 : list A),
+  mapM f (l1 ++ l2) = bind (mapM f l1) (fun a => bind (mapM f l2) (fun b => Ok (a ++ b))).
+Proof. exact @mapM_app. Qed.
+Check C08_neighbours_do_not_matter :
+  forall (A B : Type) (f : A -> outcome B) (l1 l2 : list A),
+  mapM f (l1 ++ l2) = bind (mapM f l1) (fun a => bind (mapM f l2) (fun b => Ok (a ++ b))).
+Print Assumptions C08_neighbours_do_not_matter.
+
+Theorem C08_position_does_not_matter :
+  forall (A B : Type) (f : A -> outcome B) (l : list A) (l' : list B),
+  mapM f l = Ok l' -> mapM f (rev l) = Ok (rev l').
+Proof. exact @mapM_rev_ok. Qed.
+Check C08_position_does_not_matter :
+  forall (A B : Type) (f : A -> outcome B) (l : list A) (l' : list B),
+  mapM f l = Ok l' -> mapM f (rev l) = Ok (rev l').
+Print Assumptions C08_position_does_not_matter.
+
+(* two maps in a row, the first of which succeeds, are one map of the composition *)
+Theorem C08_two_maps_fuse :
+  forall (A B C : Type) (f : A -> outcome B) (g : B -> outcome C) (l : list A) (l' : list B),
+  mapM f l = Ok l' -> mapM g l' = mapM (fun x => bind (f x) g) l.
+Proof. exact @mapM_fuse. Qed.
+Check C08_two_maps_fuse :
+  forall (A B C : Type) (f : A -> outcome B) (g : B -> outcome C) (l : list A) (l' : list B),
+  mapM f l = Ok l' -> mapM g l' = mapM (fun x => bind (f x) g) l.
+Print Assumptions C08_two_maps_fuse.
+
+Theorem C08_no_panic_from_map :
+  forall (A B : Type) (f : A -> outcome B) (l : list A),
+  (forall x, In x l -> f x <> Panic) -> mapM f l <> Panic.
+Proof. exact @mapM_no_panic. Qed.
+Check C08_no_panic_from_map :
+  forall (A B : Type) (f : A -> outcome B) (l : list A),
+  (forall x, In x l -> f x <> Panic) -> mapM f l <> Panic.
+Print Assumptions C08_no_panic_from_map.
 
 Theorem C08_empty_list :
   forall (E : Env) (body : list op) (sep : str), spec_step E (Map body) (VList []) sep = Ok (VList [], sep).
